@@ -80,6 +80,12 @@ func validateJSONPointer(msg *json.RawMessage, member string) error {
 		return fmt.Errorf("%s: invalid %s", patch.JSONPatch, member)
 	}
 
+	// the JSON patch library resolves a pointer from its first '/' on (whatever precedes it is ignored), so the
+	// prefix checks below are only meaningful for a pointer that starts with '/' (as RFC 6901 requires)
+	if !strings.HasPrefix(pointer, "/") {
+		return fmt.Errorf("%s: invalid %s: JSON pointer must start with '/'", patch.JSONPatch, member)
+	}
+
 	if strings.HasPrefix(pointer, "/"+document.ServiceProperty) {
 		return fmt.Errorf("%s: cannot modify services", patch.JSONPatch)
 	}
